@@ -24,6 +24,19 @@ def run(ctx):
         emitted = RO.check_clean_vector(ctx, RO_null(), v, "C07")
         n += RL.check_emitted_language(ctx, led, v, emitted)
         n += RL.check_builder_language(ctx, led, v)
+        # the facts the language argument starts from, discharged here rather than assumed:
+        # what the parser stores is a table-legal raw token (otherwise clean_vector() echoes an
+        # illegal one), and rh_vector()'s vector part is clean_vector()
+        from ..rules_out import check_rh_emit
+        from ..rules_parse import RelabelLedger, parse_summary
+
+        parse_summary(ctx, v, RelabelLedger(led, "C08.model", keep=("C04.store.key", "C04.store.value", "C04.store"), strip="C04."))
+        check_rh_emit(ctx, RelabelLedger(led, "C08.rh", strip="C12."), v)
+    # the builder: each asked metric answered exactly once with a table spelling, right prefix
+    from ..rules_inter import check_c16
+    from ..rules_parse import RelabelLedger
+
+    check_c16(ctx, RelabelLedger(led, "C08.builder", strip="C16."))
     led.require_min("C08.official", n, 8, "language inclusions decided")
 
 
